@@ -4,6 +4,7 @@ import Dmn.Lemmas.MergeSort
 import Dmn.Lemmas.BifsStatsStddev
 import Dmn.Lemmas.BifsStatsSort
 import Dmn.Lemmas.BifsStatsExactStddev
+import Dmn.Lemmas.BifsNumber
 
 /-!
 # C08 — built-in functions return their specified value for all arguments; named = positional
@@ -963,6 +964,24 @@ theorem single_list_of_lists (core : Core) (xss : List Value) :
 
 example : callPositional (core .checked) "concatenate" [.list [.list [n1 1], .list [n1 2]]]
     = some (.ok (.list [.list [n1 1], .list [n1 2]])) := by rfl
+
+/-! ## `number`: the reader of the code on the FEEL numeric literals -/
+
+/-- The reader behind `number` (`decQuadFromString`, lenient: exponents, a plus sign, a trailing point - finding
+F25) gives EVERY text that is a FEEL numeric literal with an optional minus sign the number the specification gives
+it: same sign, digits, exponent and rounding to 34 digits.  (The converse fails: `1e3` is read, F25.) -/
+theorem parseNumber_of_feel_literal (cs : List Char) (d : Dec) (h : Spec.parseFeelNumber cs = some d) :
+    parseNumber cs = some d := parseNumber_of_feel_literal' cs d h
+
+/-- `number(text)` without separators: on every text that is a FEEL numeric literal the code returns the specified
+number. -/
+theorem core_number_literal_spec (text : String) (d : Dec) (h : Spec.parseFeelNumber text.toList = some d) :
+    core_number (.str text) .null .null = .ok (Spec.numberV (.str text) .null .null) ∧
+    core_number (.str text) .null .null = .ok (.num d) := by
+  have h2 := parseNumber_of_feel_literal _ _ h
+  constructor <;> simp [core_number, numberValue, Spec.numberV, h, h2]
+
+example : ∃ d, Spec.parseFeelNumber ['-', '1', '.', '5'] = some d := ⟨_, rfl⟩
 
 end Bif
 end Dmn
